@@ -200,6 +200,26 @@ def applyOne (p : Program) : List String → Option (Option Program)
     | _ => none
   | _ => none
 
+/-- copy to `cur` the binding expressions that differ between `before` and
+`after` (same callable name, call id, binding name): what `editBinding` does. -/
+def transplantBinds (before after cur : List Bind) : List Bind :=
+  cur.map fun b =>
+    match before.find? (·.name == b.name), after.find? (·.name == b.name) with
+    | some b0, some b1 => if b0.exp = b1.exp then b else { b with exp := b1.exp }
+    | _, _ => b
+
+def transplant (before after cur : Program) : Program :=
+  { cur with callables := cur.callables.map fun c =>
+      match before.find? c.name, after.find? c.name with
+      | some c0, some c1 =>
+        { c with
+          calls := c.calls.map (fun k =>
+            match c0.calls.find? (·.id == k.id), c1.calls.find? (·.id == k.id) with
+            | some k0, some k1 => { k with binds := transplantBinds k0.binds k1.binds k.binds }
+            | _, _ => k),
+          ret := transplantBinds c0.ret c1.ret c.ret }
+      | _, _ => c }
+
 /-- Several operations of ONE Refactor call.  Renames are applied to the compiled
 AST as they are made; the edits of a removeInput step are applied to it only when
 the remove-unused loop is requested as well (refactor.go), so without the loop a
@@ -208,7 +228,15 @@ later removal step still analyses the program as it was after the renames
 def applySeqAux (loop : Bool) (ref cur : Program) : List String → Option (Option Program)
   | [] => some (some cur)
   | eop :: callable :: param :: new :: calls :: tops :: rest =>
-    if eop == "removeInput" then
+    if eop == "removeOutput" then
+      match ref.find? callable with
+      | none => applySeqAux loop ref cur rest
+      | some _ =>
+        -- analysis on `ref`; rewritten binding expressions go to both, removals to the result
+        let (ref', acts) := removeOutputWalk (outFuel ref) callable param (ref, [])
+        let cur' := acts.foldl applyOutAction (transplant ref ref' cur)
+        applySeqAux loop (if loop then acts.foldl applyOutAction ref' else ref') cur' rest
+    else if eop == "removeInput" then
       match ref.find? callable with
       | none => applySeqAux loop ref cur rest
       | some _ =>
